@@ -182,9 +182,10 @@ def evaluate(F, path, params, max_steps=2000):
             raise Undecidable('terminator %s' % t[0])
 
 
-def reach_with(F, path, fixed, max_states=20000):
+def reach_with(F, path, fixed, max_states=20000, observe=None):
     """Blocks reachable when some bool/int locals are fixed (partial evaluation): locals are tracked through copies, moves,
-    constants and Not; everything else is unknown, and a switch on an unknown value takes all its edges."""
+    constants and Not; everything else is unknown, and a switch on an unknown value takes all its edges.
+    observe: optional dict filled with {call block: set of known values of the call's first argument}."""
     blocks = F.blocks(path)
     seen = set()
     reached = set()
@@ -245,6 +246,9 @@ def reach_with(F, path, fixed, max_states=20000):
                 iv = int(v) if isinstance(v, bool) else v
                 nxt = [next((tg for x, tg in t[2] if x == iv), t[3])]
         elif t[0] == 'call':
+            if observe is not None and t[1]['args']:
+                # record what is known about the first argument of every call (None = unknown)
+                observe.setdefault(bb, set()).add(val(t[1]['args'][0]))
             d = t[1].get('dest')
             if d and not d['p']:
                 env.pop(d['l'], None)
